@@ -38,6 +38,11 @@ type IlvCase struct {
 	// host configured must not reach a runtime constructed later, and a twin
 	// that runs afterwards would inherit the same leak)
 	PreTwin bool `json:"pre_twin,omitempty"`
+	// Reader: "" = the standard reader; "preserving" = the shared parse is
+	// made by the format-preserving reader the tooling uses (every runtime
+	// then loads it as a lisp.Program, which seals what it reads whatever
+	// reader produced it)
+	Reader string `json:"reader,omitempty"`
 }
 
 type ilvEngine struct{}
@@ -530,6 +535,12 @@ func (ilvEngine) Gen(r *Rand, tier string) any {
 	if r.Chance(1, 4) {
 		c.GenSyms = r.Range(2, 4)
 	}
+	if r.Chance(1, 6) {
+		c.Reader = "preserving"
+		for i := range c.Program {
+			c.Program[i] = true
+		}
+	}
 	return c
 }
 
@@ -594,16 +605,26 @@ func (ilvEngine) Run(ci any, st *Stats) *Violation {
 		return nil
 	}
 	src := Src(c.Forms)
-	exprs, err := parser.NewReader().Read("shared", strings.NewReader(src))
+	mkReader := parser.NewReader
+	if c.Reader == "preserving" {
+		mkReader = func(...parser.ReaderOption) lisp.Reader { return parser.NewReader(parser.WithFormatPreserving()) }
+		for i := range c.Program {
+			if !c.Program[i] {
+				return nil // only Programs promise to seal whatever their reader produced
+			}
+		}
+		st.Inc("config_shared_parse_by_format_preserving_reader")
+	}
+	exprs, err := mkReader().Read("shared", strings.NewReader(src))
 	if err != nil {
 		return nil // a shrink candidate that no longer parses
 	}
-	fp0 := lisp.SealedASTFingerprint(exprs)
 	snap := lisp.TakeSingletonSnapshot()
 	prog, err := lisp.ReadProgram(&sharedReader{src: src, exprs: exprs, inner: parser.NewReader()}, "shared", strings.NewReader(src))
 	if err != nil {
 		return Violf("harness", "%v", err)
 	}
+	fp0 := lisp.SealedASTFingerprint(exprs)
 
 	var preTwins [][]ilvLoadResult
 	if c.PreTwin {
